@@ -21,8 +21,14 @@ EXPLANATION = ('R10.1 per-term formulas and heating == n dUdM - spin dUdO per te
 EXPLANATION += ' R10.10 the array twin: every interpreted call repeated with array arguments (mutable cells) returns the scalar values element for element and leaves the arguments intact.'
 
 
+EXPLANATION += ' R10.11 no integer-literal power (negative, or >= 3) is taken of a quantity that stays an integer when the arguments are integers (numba types arithmetic by its arguments: 0 for a negative power, silent int64 wrap-around for a large one).'
+TECHNIQUE += '; syntactic type flow in numba-compiled kernels (integer-literal powers of integer-typed arguments)'
+
 def run(chk):
     repo = Repo(chk.repo)
+    # R10.11: integer arguments are values like any other; numba keeps them integers until they meet a float (an integer-literal power is taken first)
+    from .common import int_power_lint
+    int_power_lint(chk, repo, 'R10.11', ['TidalPy/tides/dissipation.py', 'TidalPy/tides/modes/mode_manipulation.py', 'TidalPy/tides/love1d.py'])
     mm = repo.by_path('TidalPy/tides/modes/mode_manipulation.py')
     f_terms = mm.defs.get('calculate_terms'); f_coll = mm.defs.get('collapse_modes'); f_find = mm.defs.get('find_mode_manipulators')
     for nm, f in (('calculate_terms', f_terms), ('collapse_modes', f_coll), ('find_mode_manipulators', f_find)):
